@@ -217,6 +217,15 @@ func (p *nriPlugin) syncWithNRI(pods []*api.PodSandbox, containers []*api.Contai
 		released = append(released, c)
 	}
 
+	/* The cache keeps the persisted state of the containers it already knew.
+	 * The state reported by the runtime is the authoritative one.
+	 */
+	for _, c := range containers {
+		if cached, ok := m.cache.LookupContainer(c.GetId()); ok {
+			cached.UpdateState(c.GetState())
+		}
+	}
+
 	/* Go through all containers in the cache and check if we need to keep
 	 * or remove their resource allocations.
 	 */
